@@ -977,8 +977,8 @@ func skTailOkS(s *skStmt) bool {
 	if s.Neg || s.C.K == "and" {
 		return false
 	}
-	if s.C.K == "or" && s.C.Y.Neg {
-		return false
+	if s.C.K == "or" {
+		return skTailOkS(s.C.Y)
 	}
 	return true
 }
